@@ -30,6 +30,13 @@ Theorem C43_grant_effective :
     records (step st (OGrant u d t [(true, p)])) u d t p = true.
 Proof. exact grant_effective. Qed.
 
+(* DeleteTable: once a table is dropped no grant on it survives; a non-administrator is refused until a new
+   grant is recorded (also when a table of the same name is created again by somebody else) *)
+Theorem C43_drop_clears :
+  forall st su d t p, dot_free d = true -> lookup (dsns st) d = Some true -> has_table (tables st) d t = true ->
+    row_request (step st (OTDrop d t)) su false d t p = Some false.
+Proof. exact drop_clears. Qed.
+
 (* DSN names may contain a dot, and Authorized splits "dsn.table" at the first dot: a grant on
    (u, "a", "b.c") lets u read table "c" of the restricted DSN "a.b" although no grant for it exists *)
 Theorem C43_crosstalk_refuted :
@@ -41,13 +48,18 @@ Proof. exact crosstalk_refuted. Qed.
 
 (* non-vacuity: a history with two users, a revoke and a re-grant *)
 Definition ex_hist : list op :=
-  [OSetDSN [100] true; OCreate [97] [100] [116]; OGrant [98] [100] [116] [(true, PRead)];
+  [OSetDSN [100] true; OTCreate [97] [100] [116]; OGrant [98] [100] [116] [(true, PRead)];
    OGrant [98] [100] [116] [(false, PRead)]; OGrant [98] [100] [116] [(true, PUpdate)]].
+Definition ex_hist2 : list op := ex_hist ++ [OTDrop [100] [116]; OTCreate [99] [100] [116]].
 Example C43_nonvacuous :
   dot_free [100] = true /\ lookup (dsns (run ex_hist)) [100] = Some true /\
   row_request (run ex_hist) [98] false [100] [116] PUpdate = Some true /\
   row_request (run ex_hist) [98] false [100] [116] PRead = Some false /\
   row_request (run ex_hist) [97] false [100] [116] PDelete = Some true /\
   row_request (run ex_hist) [99] false [100] [116] PRead = Some false /\
-  row_request (run ex_hist) [99] true [100] [116] PRead = Some true.
+  row_request (run ex_hist) [99] true [100] [116] PRead = Some true /\
+  has_table (tables (run ex_hist)) [100] [116] = true /\
+  row_request (run ex_hist2) [98] false [100] [116] PUpdate = Some false /\
+  row_request (run ex_hist2) [97] false [100] [116] PRead = Some false /\
+  row_request (run ex_hist2) [99] false [100] [116] PDelete = Some true.
 Proof. vm_compute. repeat split. Qed.
